@@ -1,5 +1,6 @@
 /-!
-Model of `aiocoap.util.asyncio.timeoutdict.TimeoutDict` (timeoutdict.py:13-71).
+Model of `aiocoap.util.asyncio.timeoutdict.TimeoutDict` (timeoutdict.py:13-71, including the
+`__delitem__` added by the third C06 fix).
 
 State of the Python object:
 * `_items`             — the dictionary                      → `items` (association list)
@@ -52,17 +53,17 @@ def accessed (T now : Nat) (td : TD κ ν) (k : κ) : TD κ ν :=
   | none => { td with deadline := some (now + T), recent := [] }
   | some _ => { td with recent := k :: td.recent }
 
-/-- `__getitem__` (timeoutdict.py:39-42): `none` is the `KeyError`, raised before `_accessed` -/
+/-- `__getitem__` (timeoutdict.py:38-41): `none` is the `KeyError`, raised before `_accessed` -/
 def get (T now : Nat) (td : TD κ ν) (k : κ) : Option (ν × TD κ ν) :=
   match alookup k td.items with
   | none => none
   | some v => some (v, td.accessed T now k)
 
-/-- `__setitem__` (timeoutdict.py:44-46) -/
+/-- `__setitem__` (timeoutdict.py:43-45) -/
 def set (T now : Nat) (td : TD κ ν) (k : κ) (v : ν) : TD κ ν :=
   ({ td with items := ainsert k v td.items } : TD κ ν).accessed T now k
 
-/-- `__delitem__`: `del self._items[key]`; `none` is the `KeyError`; no access is recorded -/
+/-- `__delitem__` (timeoutdict.py:47-48): `del self._items[key]`; `none` is the `KeyError`; no access is recorded -/
 def del (td : TD κ ν) (k : κ) : Option (TD κ ν) :=
   match alookup k td.items with
   | none => none
